@@ -87,6 +87,29 @@ def r1(ctx):
         filt = (not needs_filter) or (any(c.endswith('GroupConfig::group_filter') for c in calls) and cfgp in ps)
         ctx.check(uses_groups and right_fn and filt, rule, '%s|%s' % (P, f), b.where(s['line']), '%s computed from `groups`%s' % (f, ' with config.group_filter()' if needs_filter else ''),
                   '%s: from groups=%s, function ok=%s, filter ok=%s' % (f, uses_groups, right_fn, filt))
+    # one filter for all groups: building it resolves the isolate roots in the file system (canonical_root: is_file + realpath per root), so a filter
+    # built inside the per-group closures costs groups x roots x depth system calls and judges the groups by roots resolved at different moments
+    per_group = [c for cp in lib.closures_of(b.path) for c in lib.body(cp).calls(r'GroupConfig::group_filter$')]
+    once = b.calls(r'GroupConfig::group_filter$')
+    ctx.check(bool(once) and not per_group, rule, P + '|one-filter-for-all-groups', (per_group[0].where() if per_group else (once[0].where() if once else b.where())),
+              'the replication filter of the statistics is built once, outside the per-group closures',
+              'config.group_filter() is called inside the closures that fold over the groups: since the roots of --isolate are canonicalised by group_filter() (D-series repair of the root spelling), the '
+              'header statistics cost 2 x groups x roots x path-depth readlink() calls (120076 instead of 56 for 3000 groups under two roots 8 levels deep; minutes for a million groups), and every '
+              'group is judged by roots resolved at another moment than the ones the groups were filtered with')
+    # the byte totals are sums and products of file lengths: hard links and sparse files make sums beyond 2^64 reachable without reading a byte
+    # (`truncate -s 9223372036854775807 a; ln a b; ln a c; group --match-links`), so the arithmetic of FileLen must not wrap (release) or panic (debug)
+    ops = [p_ for p_ in lib.bodies if re.search(r'^<file::FileLen as std::ops::(Add|AddAssign|Mul<u64>)>::(add|add_assign|mul)$', p_)]
+    wraps = []
+    for p_ in ops:
+        ob = lib.body(p_)
+        plain = [st for blk in ob.blocks for st in blk['stmts'] if st['rv']['k'] in ('bin', 'checked_bin') and str(st['rv'].get('op', '')).startswith(('Add', 'Mul'))]
+        safe = ob.calls(r'::(saturating|checked|wrapping|overflowing)_(add|mul)$')
+        if plain and not safe:
+            wraps.append(ob)
+    if ctx.floor(rule, 'arithmetic operators of FileLen', len(ops), 3):
+        ctx.check(not wraps, rule, 'file::FileLen|totals-do-not-wrap', (wraps[0].where() if wraps else lib.body(ops[0]).where()), 'FileLen + and * saturate (or check) instead of overflowing',
+                  'the byte totals are computed with the plain `+` and `*` of u64 (%s): three hard links to a sparse file of 2^63-1 bytes make the debug build panic ("attempt to add with overflow", no '
+                  'report at all) and the release build print a wrapped Total that is smaller than Redundant' % ', '.join(x.path for x in wraps))
     # the writer receives the same groups and the header built here
     wc = b.calls(r'ReportWriter::<W>::write$|ReportWriter<.*>::write$')
     if ctx.floor(rule, 'ReportWriter::write calls', len(wc), 2, b.where()):
